@@ -21,7 +21,7 @@ PROP_ENTRIES = {
     'C01': ('try_new', 'new', 'into_inner'), 'C02': ('try_new', 'new', 'into_inner'), 'C07': ('try_new',),
     'C03': ('TryFrom', 'TryFrom<&str>', 'From', 'FromStr', 'Default'),
     'C05': ('try_new', 'new', 'TryFrom', 'TryFrom<&str>', 'From', 'FromStr', 'Default', 'validity'),
-    'C06': ('FromStr',), 'C09': ('Arbitrary',), 'C14': ('ArbitrarySurjective',), 'C11': ('canonical',), 'C13': ('AsRef', 'Deref', 'Borrow', 'Borrow<str>', 'Into', 'into_inner'),
+    'C16': ('MessageTruth',), 'C06': ('FromStr',), 'C09': ('Arbitrary',), 'C14': ('ArbitrarySurjective',), 'C11': ('canonical',), 'C13': ('AsRef', 'Deref', 'Borrow', 'Borrow<str>', 'Into', 'into_inner'),
 }
 
 
@@ -36,11 +36,21 @@ def verus_part(out: Outcome, prop: str, decls, tag=None):
     anns = []
     rejected = {}
     shape_failed = {}
+    structural = {'n': 0, 'failed': []}
     by_id = {d.id: d for d in decls}
     for d in decls:
         if d.id in dr.rustc_rejected and 'compile_error' not in dr.dumps.get(d.id, '') and 'mod __nutype_' in dr.dumps.get(d.id, ''):
             rejected[d.id] = 'rustc: ' + dr.rustc_rejected[d.id][:200]
             continue
+        if prop == 'C05' and 'mod __nutype_' in dr.dumps[d.id]:
+            from vf import structure
+            try:
+                for what, ok, detail in structure.scan(d, dr.dumps[d.id]):
+                    structural['n'] += 1
+                    if not ok:
+                        structural['failed'].append(('%s::structure(%s)' % (d.id, what), detail, d.id))
+            except Exception as e:
+                out.undecided.append('%s: structural scan error %r' % (d.id, e))
         pb = error_enum_shape_problem(d, dr.dumps[d.id]) if 'mod __nutype_' in dr.dumps[d.id] else None
         if pb:
             shape_failed[d.id] = pb
@@ -152,6 +162,11 @@ def verus_part(out: Outcome, prop: str, decls, tag=None):
         if prop in ('C01', 'C02', 'C07'):
             nobl += 1
             failed['%s::error_enum_shape' % did] = {'backend': 'dump-read', 'message': pb, 'detail': pb, 'decl': did}
+    if structural['n']:
+        nobl += structural['n']
+        out.extra['structural_reads (syntactic frame conditions on the dump, counted as obligations decided by reading)'] = structural['n']
+        for key, detail, did in structural['failed']:
+            failed[key] = {'backend': 'dump-read', 'message': 'structural condition violated: ' + key, 'detail': detail, 'decl': did, 'witness': []}
     nfailed = len([k for k in failed])
     out.obligations += nobl
     out.discharged += max(0, nobl - nfailed)
@@ -178,11 +193,16 @@ def finalize(out: Outcome):
     known = [k for k in report.load_known() if k.get('property') == out.prop and k.get('status') == 'open']
     known_keys = {k['key']: k for k in known}
     fresh = []
+    import fnmatch
+    announced = set()
     for f in out.failed:
         key = f['key']
-        if key in known_keys:
+        hit = next((k for k in known_keys if k == key or fnmatch.fnmatchcase(key, k)), None)
+        if hit is not None:
             out.known_hits.append(key)
-            out.emit('KNOWN-FINDING: property=%s %s (%s)' % (out.prop, key, known_keys[key]['what']))
+            if hit not in announced:
+                announced.add(hit)
+                out.emit('KNOWN-FINDING: property=%s %s (first failing obligation: %s)' % (out.prop, known_keys[hit]['what'], key))
         else:
             fresh.append(f)
     # one representative per (family, inner type, function) gets a witness search against the
@@ -253,8 +273,118 @@ def finalize(out: Outcome):
     return 0
 
 
+def c16_decls(tier):
+    from vf.catalogue import mk
+    from vf.decl import Validator, Bound, Sanitizer
+    from vf import aux
+    out = []
+    ints = ['i32', 'u8', 'i64', 'u128', 'isize'] if tier == 'quick' else catalogue.INT_TYPES
+    for t in ints + ['f32', 'f64']:
+        fl = t in ('f32', 'f64')
+        fam = 'float' if fl else 'int'
+        for k in ('greater', 'greater_or_equal', 'less', 'less_or_equal'):
+            b, n = aux.sym_bound('lo' if k.startswith('g') else 'hi', t)
+            out.append(mk('c16_%s_%s_sym' % (t, k), fam, t, validators=[Validator(k, b)], aux=[n], derives=['Debug'], props=['C16']))
+            lits = [('p', '7.5' if fl else '7')] + ([('n', '-7.5' if fl else '-7')] if (fl or t[0] == 'i') else []) + [('big', '1e30' if fl else '100')]
+            for tag, src in lits:
+                if fl:
+                    bb = Bound(src, '', '(%s as %s)' % (src, t))
+                else:
+                    bb = aux.lit_bound(int(src), t)
+                out.append(mk('c16_%s_%s_lit_%s' % (t, k, tag), fam, t, validators=[Validator(k, bb)], derives=['Debug'], props=['C16']))
+        # several validators in one declaration, embedding through FromStr and serde
+        bl, n1 = aux.sym_bound('lo', t)
+        bu, n2 = aux.sym_bound('hi', t)
+        out.append(mk('c16_%s_ge_lt_embed' % t, fam, t, validators=[Validator('greater_or_equal', bl), Validator('less', bu)], aux=[n1, n2],
+                      derives=['Debug', 'FromStr', 'Deserialize'], props=['C16']))
+        out.append(mk('c16_%s_le_gt_embed' % t, fam, t, validators=[Validator('less_or_equal', bu), Validator('greater', bl)], aux=[n1, n2],
+                      derives=['Debug', 'FromStr', 'Deserialize'], props=['C16']))
+    lo = Bound(src='sym_len_lo()', spec='SYM_LEN_LO()', ref='sym_len_lo()', symbolic=True)
+    hi = Bound(src='sym_len_hi()', spec='SYM_LEN_HI()', ref='sym_len_hi()', symbolic=True)
+    out.append(mk('c16_str_min_sym', 'string', 'String', validators=[Validator('len_char_min', lo)], aux=['sym_len_lo'], derives=['Debug'], props=['C16']))
+    out.append(mk('c16_str_max_sym', 'string', 'String', validators=[Validator('len_char_max', hi)], aux=['sym_len_hi'], derives=['Debug'], props=['C16']))
+    out.append(mk('c16_str_min_max_lit', 'string', 'String', sanitizers=[Sanitizer('trim')],
+                  validators=[Validator('len_char_min', aux.lit_bound(3)), Validator('not_empty'), Validator('len_char_max', aux.lit_bound(20))],
+                  derives=['Debug', 'Deserialize'], props=['C16']))
+    out.append(mk('c16_str_max0', 'string', 'String', validators=[Validator('len_char_max', aux.lit_bound(0))], derives=['Debug'], props=['C16']))
+    return out
+
+
+def c16_part(out: Outcome, tier):
+    from vf import c16, kani_side
+    decls = c16_decls(tier)
+    dr = pipeline.build_dumps(decls, 'C16', features=('serde',))
+    verus_decls, float_hs, float_decls = [], [], []
+    by_id = {d.id: d for d in decls}
+    for d in decls:
+        txt = dr.dumps[d.id]
+        if 'mod __nutype_' not in txt or d.id in dr.rustc_rejected:
+            out.undecided.append('%s: declaration no longer accepted' % d.id)
+            continue
+        info = c16.analyse(d, txt)
+        if info is None:
+            out.undecided.append('%s: Display impl of %s not found in the expansion' % (d.id, d.error_type))
+            continue
+        d.c16 = []
+        for ent in info:
+            var = ent['variant']
+            key0 = '%s::Display[%s]' % (d.id, var)
+            out.obligations += 1
+            if ent.get('missing'):
+                out.failed.append({'key': key0 + '#names_type_and_bound', 'backend': 'dump-read', 'message': 'no Display arm for the variant', 'detail': '', 'decl': d.id, 'decl_obj': d, 'witness': []})
+                continue
+            if not ent['names_ok'] or not ent['bound_ok']:
+                out.failed.append({'key': key0 + '#names_type_and_bound', 'backend': 'dump-read',
+                                   'message': 'the message must name the type (stringify!(%s)) and the declared bound `%s`; arm has fmt=%r bound arg `%s`' % (d.name, ent['validator'].bound.src, ent['fmt'], ent['bound_arg']),
+                                   'detail': ent['fmt'], 'decl': d.id, 'decl_obj': d, 'witness': []})
+            else:
+                out.discharged += 1
+            if ent['stated'] is None:
+                out.undecided.append('%s: wording not in the phrase table: %r' % (key0, ent['fmt']))
+                continue
+            if d.family == 'float':
+                v = ent['validator']
+                subj, rel = ent['stated']
+                body = (kani_side.sym_setup(d) +
+                        '        let x: %s = kani::any();\n        kani::assume(!x.is_nan());\n' % d.inner +
+                        '        let b: %s = %s;\n        kani::assume(!b.is_nan());\n' % (d.inner, v.bound.ref) +
+                        '        let stated = x %s b;\n        let accepted = %s;\n' % (rel, d.ref_accepts(v, 'x')) +
+                        '        assert!(stated == accepted, "the relation the message states holds exactly for the values the validator accepts");\n')
+                h = kani_side.Harness(d, 'Display[%s]#relation' % var, ['C16'], body,
+                                      clause='forall non-NaN x: (message: "%s")  x %s bound  <=>  validator %s accepts x' % (ent['fmt'][:60], rel, v.kind))
+                float_hs.append(h)
+                if d not in float_decls:
+                    float_decls.append(d)
+            else:
+                d.c16.append(ent)
+        for what, ok in c16.read_embedding(txt, d):
+            out.obligations += 1
+            if ok:
+                out.discharged += 1
+            else:
+                out.failed.append({'key': '%s::embedding(%s)' % (d.id, what[:20]), 'backend': 'dump-read', 'message': what + ': NOT the case', 'detail': '', 'decl': d.id, 'decl_obj': d, 'witness': []})
+            out.bounded.append('structural read (not a proof): %s — %s' % (d.id, what)) if len(out.bounded) < 4 else None
+        if d.family != 'float' and d.c16:
+            verus_decls.append(d)
+    # Verus lemmas (ints, strings): only the lemma obligations are counted for C16
+    for d in verus_decls:
+        d.derives = ['Debug']          # the Verus side needs nothing else here
+        d.props = ['C16']
+    if verus_decls:
+        verus_part(out, 'C16', verus_decls, tag='C16v')
+    if float_hs:
+        kani_side.kani_run_harnesses(out, 'C16', 'C16', float_decls, float_hs)
+    out.trusted.append('C16: the phrase -> relation table in vf/c16.py (reading of English) is trusted; unknown wording is undecided')
+
+
 def run_property(prop, tier, seed):
     out = Outcome(prop, tier, seed)
+    if prop == 'C16':
+        try:
+            c16_part(out, tier)
+        except Undecided as e:
+            out.undecided.append(str(e)[:1500])
+        return finalize(out)
     try:
         decls = [d for d in catalogue.verus_catalogue(tier, seed) if prop in d.props and d.verus]
         verus_part(out, prop, decls)
